@@ -75,6 +75,10 @@ TStart == /\ (IsEvent("start") \/ IsEvent("rt.start")) /\ E.mac \in Targets /\ E
           /\ Do(StartHuntM(E.mac, E.ip),
                 [kind |-> "start", mac |-> E.mac, ip |-> E.ip, err |-> E.err, spawned |-> E.spawned],
                 StartHuntR(E.mac, E.ip, E.spawned))
+TCStart == /\ IsEvent("cstart") /\ E.mac \in Targets /\ E.ip \in TargetIPs
+           /\ Do(ConcStartM(E.mac, E.ip, E.n),
+                 [kind |-> "cstart", mac |-> E.mac, ip |-> E.ip, n |-> E.n, errs |-> E.errs, spawned |-> E.spawned],
+                 StartHuntR(E.mac, E.ip, E.spawned))
 TStop == /\ (IsEvent("stop") \/ IsEvent("rt.stop")) /\ E.mac \in Targets /\ E.ip \in TargetIPs
          /\ Do(StopHuntM(E.mac, E.ip), [kind |-> "stop", mac |-> E.mac, ip |-> E.ip], StopHuntR(E.mac, E.ip))
 TClose == /\ (IsEvent("close") \/ IsEvent("rt.close"))
@@ -140,7 +144,7 @@ TSkip == /\ ~Live /\ ln <= Len(Trace) /\ E.a # "reset" /\ ln' = ln + 1 /\ skip' 
          /\ RecordFailure
          /\ UNCHANGED vars
 
-TraceNext == \/ TSkip \/ TReset \/ TStart \/ TStop \/ TClose \/ TCheck \/ TAct \/ TTimeout \/ TRa \/ TOther
+TraceNext == \/ TSkip \/ TReset \/ TStart \/ TCStart \/ TStop \/ TClose \/ TCheck \/ TAct \/ TTimeout \/ TRa \/ TOther
              \/ TRtLoop \/ TRtLearn \/ TRtCheck \/ TRtFrame \/ TRtDone
 
 TraceSpec == TraceInit /\ [][TraceNext]_tvars
